@@ -5,6 +5,8 @@ import (
 	"math/rand"
 	"os"
 	"strings"
+	"sync"
+	"time"
 
 	"verif/harness/internal/smf"
 )
@@ -18,7 +20,7 @@ func writeRec(c *Ctx, d Doc, fl Flags, tracks int, alsoSingle bool, extra ...str
 		"ok":   r.Exit == 0 && !r.TimedOut && !r.Panic && f.Err == "" && len(r.Stdout) > 0,
 		"exit": r.Exit, "terminated": !r.TimedOut, "stdoutLen": len(r.Stdout), "stderrLen": len(r.Stderr),
 		"division": f.Division, "ntracks": f.NTracks, "ev": eventsOf(f), "smfErr": f.Err,
-		"ok1": true, "ev1": [][]any{},
+		"ok1": true, "ev1": [][]any{}, "refDivision": refDivision(c),
 		// a clean refusal: a message, a non-zero status, no output
 		"refused": r.Exit > 0 && !r.TimedOut && !r.Panic && len(r.Stdout) == 0 && len(r.Stderr) > 0}
 	if alsoSingle {
@@ -43,6 +45,21 @@ func absurdRec(c *Ctx, digits string, rest bool, tracks int) Rec {
 		"refused": r.Exit > 0 && !r.TimedOut && !r.Panic && len(r.Stdout) == 0 && len(r.Stderr) > 0}
 }
 
+// refDivision: the ticks per quarter note the binary under test declares, read off one small file (a refused run has no
+// header to read it from)
+var (
+	refDivOnce sync.Once
+	refDiv     int
+)
+
+func refDivision(c *Ctx) int {
+	refDivOnce.Do(func() {
+		r := c.crdEnv([]string{"write"}, []byte("- chord: {degree: \"1\", name: \"\"}\n  values: [\"1\"]\n"), nil, 30*time.Second)
+		refDiv = smf.Parse(r.Stdout).Division
+	})
+	return refDiv
+}
+
 func writeExec(alsoSingle bool) func(c *Ctx, k Case) []Rec {
 	return func(c *Ctx, k Case) []Rec {
 		tr := ci(k, "tracks")
@@ -54,14 +71,19 @@ func writeExec(alsoSingle bool) func(c *Ctx, k Case) []Rec {
 		}
 		if n := ci(k, "bigchord"); n > 0 {
 			// a user chord with n attributes (more notes than any small counter holds), called "big"
-			names := []string{"Perfect1", "Major2", "Major3", "Perfect4", "Perfect5", "Major6", "Major7", "Perfect8", "Major9", "Major10", "Perfect11", "Perfect12", "Major13"}
-			as := []string{}
-			for i := 0; i < n; i++ {
-				as = append(as, names[i%len(names)])
+			var ab, as strings.Builder
+			for i := 0; i < n; i++ { // n attributes of n different names
+				fmt.Fprintf(&ab, "- name: N%d\n  degree: \"%d\"\n", i, 1+i%15)
+				if i > 0 {
+					as.WriteString(", ")
+				}
+				fmt.Fprintf(&as, "N%d", i)
 			}
-			f := c.writeTemp(fmt.Sprintf("big%d.yml", nextID()), "- name: Big\n  meta: {display: big}\n  attributes: ["+strings.Join(as, ", ")+"]\n")
+			fa := c.writeTemp(fmt.Sprintf("biga%d.yml", nextID()), ab.String())
+			defer os.Remove(fa)
+			f := c.writeTemp(fmt.Sprintf("big%d.yml", nextID()), "- name: Big\n  meta: {display: big}\n  attributes: ["+as.String()+"]\n")
 			defer os.Remove(f)
-			return []Rec{writeRec(c, caseToDoc(k["doc"]), caseToFlags(k["flags"]), tr, alsoSingle, "--chord", f)}
+			return []Rec{writeRec(c, caseToDoc(k["doc"]), caseToFlags(k["flags"]), tr, alsoSingle, "--attr", fa, "--chord", f)}
 		}
 		if cb(k, "debug") {
 			return []Rec{writeRec(c, caseToDoc(k["doc"]), caseToFlags(k["flags"]), tr, alsoSingle, "--debug")}
